@@ -7,7 +7,7 @@ PATCH="$(readlink -f "$1")"; PROP="$2"; TIER="${3:-quick}"; SEED="${4:-1}"
 BIN="$(echo "$PROP" | tr A-Z a-z)"
 TAG="ev-$BIN-$$"
 WT=/tmp/$TAG-wt; H=/tmp/$TAG-h
-cleanup() { git -C /repo worktree remove --force "$WT" 2>/dev/null; rm -rf "$H" "$WT"; }
+cleanup() { [ -n "${KEEP:-}" ] && { echo "kept $H $WT"; return; }; git -C /repo worktree remove --force "$WT" 2>/dev/null; rm -rf "$H" "$WT"; }
 trap cleanup EXIT
 git -C /repo worktree add -q "$WT" HEAD || exit 2
 git -C "$WT" apply "$PATCH" || { echo "patch does not apply"; exit 2; }
